@@ -16,6 +16,7 @@ pub mod c09;
 pub mod c10;
 pub mod c11;
 pub mod c12;
+pub mod c13;
 pub mod c14;
 pub mod c15;
 pub mod c16;
@@ -42,6 +43,7 @@ pub const ALL: &[Property] = &[
     Property { id: "C10", run: c10::run, replay: c10::replay },
     Property { id: "C11", run: c11::run, replay: c11::replay },
     Property { id: "C12", run: c12::run, replay: c12::replay },
+    Property { id: "C13", run: c13::run, replay: c13::replay },
     Property { id: "C14", run: c14::run, replay: c14::replay },
     Property { id: "C15", run: c15::run, replay: c15::replay },
     Property { id: "C16", run: c16::run, replay: c16::replay },
